@@ -60,19 +60,19 @@ class error_html(object):
 
     def footer(self):
         err_st = self.errh.cur_st_node
-        if not err_st.is_closed():
+        if err_st is not None and not err_st.is_closed():
             for (err_cde, err_str) in err_st.errors:
                 if err_cde == '2':
                     self.fd.write('<span class="error">&nbsp;%s (Segment Error Code: %s)</span><br />\n' %
                                   (err_str, err_cde))
         err_gs = self.errh.cur_gs_node
-        if not err_gs.is_closed():
+        if err_gs is not None and not err_gs.is_closed():
             for (err_cde, err_str) in err_gs.errors:
                 if err_cde == '3':
                     self.fd.write('<span class="error">&nbsp;%s (Segment Error Code: %s)</span><br />\n' %
                                   (err_str, err_cde))
         err_isa = self.errh.cur_isa_node
-        if not err_isa.is_closed():
+        if err_isa is not None and not err_isa.is_closed():
             for (err_cde, err_str) in err_isa.errors:
                 if err_cde == '023':
                     self.fd.write('<span class="error">&nbsp;%s (Segment Error Code: %s)</span><br />\n' %
